@@ -361,6 +361,9 @@ class Vector():
 		# Python Date interceptors
 		if target_type is date:
 			def caster(x):
+				if isinstance(x, datetime):
+					# a datetime is a date instance too; left as it is it would sit in a <date> vector
+					return x.date()
 				if isinstance(x, date):
 					return x
 				return date.fromisoformat(x)
